@@ -164,7 +164,8 @@ pub fn build_world(scn: &Scenario, built: &Built, layout: &Layout, faults: &[Dis
                         2 => rec.extend_from_slice(&if magic == [0xfa, 0xbf, 0xb5, 0xda] { [0x0au8, 0x03, 0xcf, 0x40] } else { [0xfa, 0xbf, 0xb5, 0xda] }),
                         _ => rec.extend_from_slice(&bb.hash[4..8]),
                     }
-                    rec.extend_from_slice(&(payload.len() as u32).to_le_bytes());
+                    let stored = if is_active { crate::render::stored_size(scn, *i, payload.len()) } else { payload.len() as u64 };
+                    rec.extend_from_slice(&(stored as u32).to_le_bytes());
                     rec.extend_from_slice(&payload);
                     xor_in_place(&mut rec, &key, off);
                     file.write_all(&rec).map_err(e)?;
@@ -293,7 +294,13 @@ pub fn build_world(scn: &Scenario, built: &Built, layout: &Layout, faults: &[Dis
             continue; // block not stored in this layout (index segment only)
         }
         // block 0 has no undo data in Bitcoin Core's index
-        let st = if h == 0 { 5 | 8 } else { STATUS_ACTIVE & !(scn.index.active_clear_status & !8) } | scn.index.active_extra_status;
+        let st = if h < scn.index.pruned_below {
+            5
+        } else if h == 0 {
+            5 | 8
+        } else {
+            STATUS_ACTIVE & !(scn.index.active_clear_status & !8)
+        } | scn.index.active_extra_status;
         let mut key_hash = bb.hash;
         if let Some((_, o)) = scn.index.key_overrides.iter().find(|(hh, _)| *hh == h) {
             if o.0.len() == 32 {
